@@ -18,6 +18,8 @@ ASSUME = [
     "streams may be remapped repeatedly (cache hit on NEW, the exit's answer after SENTCONNECT): the latest address is the truth; a stream "
     "reported FAILED may be reported CLOSED afterwards (for the view: an unknown id whose only event is terminal)",
     "circuits may be extended after BUILT (cannibalisation, with a purpose change) and become BUILT again",
+    "build_timeout_circuit(): the timeout is a task.Clock of its own advanced at a BuildTimeout step; such requests appear in the "
+    "TLC-generated behaviours (not in the Python-generated random histories)",
     "build_circuit(): EXTENDCIRCUIT is answered at an explicit Ack step; the circuit's LAUNCHED announcement may come before or after "
     "the answer (Tor flushes replies before events, both orders are explored); until the first event the circuit's status is a "
     "placeholder and is not compared; no other event concerns the circuit while the answer is outstanding, and build_circuit is "
@@ -225,7 +227,10 @@ def run(pid, tier, seed):
     global closing_c, closing_s, failed_c, taddr, zombie
     rep = common.Report(pid, tier, seed)
     rep.assumptions = list(ASSUME)
-    for name in (["MC_%s_quick" % pid] if tier == "quick" else ["MC_%s_quick" % pid, "MC_%s_thorough" % pid]):
+    names = ["MC_%s_quick" % pid] if tier == "quick" else ["MC_%s_quick" % pid, "MC_%s_thorough" % pid]
+    if pid == "C08":
+        names.insert(1, "MC_C08_timed")          # build_timeout_circuit requests, one circuit
+    for name in names:
         r = tlc.run_tlc("TorStateM_MC", "TorStateM_%s.cfg" % name, workers=16, timeout=150 if tier == "quick" else 1200)
         if r.timed_out and not r.invariant_violated:
             rep.cov["tlc_runs"].append(dict(name=name, generated=r.generated, distinct=r.distinct, depth=r.depth,
